@@ -770,4 +770,27 @@ theorem chooseHost_reduces (es : List Entry) (env : Nat → Draw) (hv : ∀ k, (
       obtain ⟨j, hj⟩ := chooseHostFrom_some es env hv s _ 0 ht
       exact ⟨hne, s, j, rfl, by rw [hch]; exact hj⟩
 
+/-- a host that occurs once in the iteration sequence is found only at its own position -/
+theorem getElem?_split_unique (pre post : List Entry) (h : Host) (w : Nat)
+    (huniq : ∀ e ∈ pre ++ post, e.1 ≠ h) (j : Nat)
+    (hj : ((pre ++ (h, w) :: post)[j]?).map Prod.fst = some h) : j = pre.length := by
+  rcases Nat.lt_trichotomy j pre.length with hlt | heq | hgt
+  · exfalso
+    rw [List.getElem?_append_left hlt] at hj
+    cases hx : pre[j]? with
+    | none => simp [hx] at hj
+    | some e =>
+      simp only [hx, Option.map_some, Option.some.injEq] at hj
+      exact huniq e (List.mem_append_left _ (List.mem_of_getElem? hx)) hj
+  · exact heq
+  · exfalso
+    rw [List.getElem?_append_right (Nat.le_of_lt hgt)] at hj
+    obtain ⟨k, hk⟩ : ∃ k, j - pre.length = k + 1 := ⟨j - pre.length - 1, by omega⟩
+    rw [hk, List.getElem?_cons_succ] at hj
+    cases hx : post[k]? with
+    | none => simp [hx] at hj
+    | some e =>
+      simp only [hx, Option.map_some, Option.some.injEq] at hj
+      exact huniq e (List.mem_append_right _ (List.mem_of_getElem? hx)) hj
+
 end Restli.D2
